@@ -470,7 +470,10 @@ func (m *Model) handleArg(in *In, out *Out, h string, which string) (*MObj, bool
 // otherwiseInvalid: the request has an argument that is refused whatever the handles are.
 func (m *Model) otherwiseInvalid(in *In) bool {
 	switch in.K {
-	case "create", "mkdir", "symlink", "remove", "rmdir":
+	case "symlink":
+		// (a link target longer than the largest WRITE may be refused as such)
+		return !m.validName(in.Name) || (m.Lim.WtMax > 0 && uint64(len(in.Data)) > m.Lim.WtMax)
+	case "create", "mkdir", "remove", "rmdir":
 		return !m.validName(in.Name)
 	case "rename":
 		return !m.validName(in.Name) || !m.validName(in.Name2)
